@@ -2,6 +2,11 @@ package rules
 
 import (
 	"go/types"
+	"sort"
+
+	"golang.org/x/tools/go/ssa"
+
+	"verif/checker/internal/ir"
 )
 
 func init() {
@@ -88,4 +93,101 @@ func runC18(c *Ctx) {
 			"neutrino.NewChainService":                  "constructs the manager",
 		}, 4)
 	})
+
+	c.rule("C18.R2", "goroutine-local bookkeeping stays local: closures that run on another goroutine (go statements, time.AfterFunc callbacks) created inside the single-owner loops workDispatcher and broadcastHandler capture only channels, scalars copied by value and the owning manager, never the loop's maps, work queue or per-batch records (which the loop mutates without synchronisation)", func() {
+		afterFunc := c.funcObj("time", "AfterFunc")
+		for _, name := range []string{fnDispatch, fnBHandler} {
+			top := c.fn(name)
+			n := 0
+			var bad, sites []string
+			for _, f := range ir.WithClosures(top) {
+				ir.Instrs(f, func(in ssa.Instruction) {
+					var cl *ssa.MakeClosure
+					switch x := in.(type) {
+					case *ssa.Go:
+						cl, _ = x.Call.Value.(*ssa.MakeClosure)
+					case *ssa.Call:
+						if callTo(afterFunc)(x) {
+							cl, _ = x.Call.Args[1].(*ssa.MakeClosure)
+						}
+					}
+					if cl == nil {
+						return
+					}
+					n++
+					sites = append(sites, c.at(in))
+					target := cl.Fn.(*ssa.Function)
+					for i, b := range cl.Bindings {
+						if ownedBinding(b, f, top) {
+							bad = append(bad, "closure at "+c.at(in)+" captures "+target.FreeVars[i].Name()+" ("+types.TypeString(b.Type(), func(p *types.Package) string { return p.Name() })+")")
+						}
+					}
+				})
+			}
+			sort.Strings(bad)
+			c.verdict(len(bad) == 0 && n >= 1, name+" | foreign-goroutine closures capture no loop-owned state", c.P.Pos(top.Pos()), "captures are channels, scalars, the manager", join(bad)+": that state is mutated by the owning loop without synchronisation, so the other goroutine races with it", sites...)
+		}
+	})
+}
+
+// ownedBinding: the captured value is bookkeeping of the owning loop: a
+// per-batch record (a struct type declared inside the owner function, by value
+// or pointer), or a variable cell of the owner function itself holding a map, a
+// slice or the work queue (a fresh copy made by the spawning closure is not).
+func ownedBinding(b ssa.Value, in *ssa.Function, top *ssa.Function) bool {
+	t := b.Type()
+	for {
+		p, ok := t.Underlying().(*types.Pointer)
+		if !ok {
+			break
+		}
+		t = p.Elem()
+	}
+	if n, ok := t.(*types.Named); ok {
+		if n.Obj().Pkg() != nil && n.Obj().Parent() != nil && n.Obj().Parent() != n.Obj().Pkg().Scope() {
+			return true
+		}
+	}
+	// resolve the cell through free variables to where it was allocated
+	cell := b
+	fn := in
+	for depth := 0; depth < 4; depth++ {
+		fv, ok := cell.(*ssa.FreeVar)
+		if !ok {
+			break
+		}
+		parent := fn.Parent()
+		if parent == nil {
+			break
+		}
+		var next ssa.Value
+		ir.Instrs(parent, func(x ssa.Instruction) {
+			mc, ok := x.(*ssa.MakeClosure)
+			if !ok || mc.Fn != ssa.Value(fn) {
+				return
+			}
+			for i, bb := range mc.Bindings {
+				if fn.FreeVars[i] == fv {
+					next = bb
+				}
+			}
+		})
+		if next == nil {
+			break
+		}
+		cell, fn = next, parent
+	}
+	al, ok := cell.(*ssa.Alloc)
+	if !ok || al.Parent() != top {
+		return false
+	}
+	switch e := al.Type().Underlying().(*types.Pointer).Elem().Underlying().(type) {
+	case *types.Map, *types.Slice:
+		return true
+	case *types.Pointer:
+		if n, ok := e.Elem().(*types.Named); ok && n.Obj().Name() == "workQueue" {
+			return true
+		}
+	}
+	return false
 }
